@@ -464,7 +464,9 @@ class SimE(Simulator):
                 "Simulate: PV1 = 5 L/h", "Simulate: PV1 = 5", "Simulate: PV1 = 5 degC", "Simulate: Nope = 1", "Simulate: OUT2 = Open",
                 "Simulate off: PV1", "Simulate off: Nope", "Wait: 0.2s", "Wait: 0.2", "Wait: 1 L", "Base: s", "Base: L", "Base: CV",
                 "Base: furlong", "Run counter: 2", "Run counter: x", "Call macro: Nope", "NoSuchCommand: 1", "Pause: 0.2s",
-                "Pause: 1", "Hold: 0.2 s", "Info: hello", "Notify: hi", "0.01 Mark: thr", "Increment run counter"]
+                "Pause: 1", "Hold: 0.2 s", "Info: hello", "Notify: hi", "0.01 Mark: thr", "Increment run counter",
+                "Pause: -0.3 s", "Hold: 0,2 s", "Pause: 1.5.5 s", "Hold: x 0.2 s", "Pause: +0.2 s", "Wait: -1 s", "Wait: 0,5 s",
+                "Hold: 0.2 s s", "Set1: --5 %", "Ramp: 3 3", "Set3: 1,5", "Pause: 0.2 sec", "Hold: .2 s", "Wait: 1e-1 s"]
         clean = rng.random() < 0.45      # no near-miss lines: the whole method is meant to pass the analysis
         for _ in range(0 if clean else rng.randint(1, 4)):
             k = rng.randint(0, len(method))
